@@ -12,14 +12,19 @@
      C11_specials     the special sequences and unknown / braced commands  (finite list);
      C11_plain        text without trigger characters is only escaped — every other character stays
                       unchanged and in order                              (UNBOUNDED, by induction);
-     C11_off          with conversion off the text is only escaped        (definitional).
+     C11_off          with conversion off the text is only escaped        (definitional);
+     C11_scan_command / C11_scan_braced / C11_scan_other   (Proofs/ScanProofs.v, UNBOUNDED over command names, brace
+                      groups and continuations) one step of the pass-2 scanner: a command not followed by a letter
+                      or '{' is looked up as a whole; a command with its brace group is looked up TOGETHER with the
+                      group; a miss leaves the whole match verbatim (latex_lookup is the identity on a miss); any
+                      character that is not a backslash is copied.
    The reference used in the finite lemmas is spec_events false, i.e. WITH the documented deviation:
    ">=", "<=" and "\pagefield" leave a space behind (spec_events true is the property as stated; the
    difference is the known finding C11-sign-space / C11-pagefield-space, witnessed below).
    C11_partial: model = reference for ALL texts is not proved (two replace passes vs one tokenizer). *)
 From Coq Require Import Ascii String.
 From Coq Require Import List NArith ZArith Bool Arith.
-From V Require Import Str Tok Tables Decode TextConv TextSpec TextConvProofs.
+From V Require Import Str Tok Tables Decode TextConv TextSpec TextConvProofs ScanProofs.
 Import ListNotations.
 Local Open Scope string_scope.
 Local Open Scope list_scope.
@@ -38,6 +43,23 @@ Proof. exact (conj pass1_not_captured geq_leq_mapped). Qed.
 
 Theorem C11_specials : all_b model_meets_spec special_cases = true.
 Proof. exact special_cases_ok. Qed.
+
+Theorem C11_scan_command : forall f name x tl,
+  name <> [] -> all_b is_alpha name = true -> is_alpha x = false -> x <> 123%N ->
+  longest_key special_keys (92%N :: name ++ x :: tl) None = None ->
+  latex_fuel (S f) (92%N :: name ++ x :: tl) = latex_lookup (92%N :: name) ++ latex_fuel f (x :: tl).
+Proof. exact scan_plain_command. Qed.
+Print Assumptions C11_scan_command.
+
+Theorem C11_scan_braced : forall f name inner tl,
+  name <> [] -> all_b is_alpha name = true -> all_b (fun c => negb (N.eqb c 125)) inner = true ->
+  longest_key special_keys (92%N :: name ++ 123%N :: inner ++ 125%N :: tl) None = None ->
+  latex_fuel (S f) (92%N :: name ++ 123%N :: inner ++ 125%N :: tl)
+  = latex_lookup (92%N :: name ++ 123%N :: inner ++ [125%N]) ++ latex_fuel f tl.
+Proof. exact scan_braced_command. Qed.
+
+Theorem C11_scan_other : forall f c tl, c <> 92%N -> latex_fuel (S f) (c :: tl) = c :: latex_fuel f tl.
+Proof. exact scan_other. Qed.
 
 Theorem C11_plain : forall s,
   Forall (fun c => plain_char c = true) s -> convert_special_chars true s = escape s.
